@@ -300,9 +300,35 @@ def check_backward(w, rec, st, how):
             narrowed = _narrowed(fwd["recipe"], expected_dtype(fwd["recipe"])) or (
                 fwd["kind"] == "roundtrip" and _narrowed(fwd["recipe2"], expected_dtype(fwd["recipe2"])))
             if narrowed:
-                st["compared_tol"] += 1
-                m = compare(rec["out_snap"], ref_snap, "tol", 1e-5,
-                            scale=max(max_abs(ref_snap), 1e-30))
+                # filters carry a float32 rounding.  Linear transforms pass it on
+                # unamplified (1e-5 is generous); the scattering layers' gradient
+                # x/sqrt(|x|^2+b^2) amplifies it by up to 1/magbias, so there only
+                # the same-filter-values comparison below is meaningful
+                m = None
+                if fwd.get("family") not in ("scat", "scat2"):
+                    st["compared_tol"] += 1
+                    m = compare(rec["out_snap"], ref_snap, "tol", 1e-5,
+                                scale=max(max_abs(ref_snap), 1e-30))
+                if not m and fwd["kind"] in ("call", "inverse") and fwd.get("state") is not None:
+                    cur = expected_dtype(fwd["recipe"])
+                    L = fresh(cur)
+                    oc3, mod3 = _run(lambda: build_direct(L, fwd["recipe"], cur))
+                    if oc3 == "ok":
+                        oc3, _ = _run(lambda: mod3.load_state_dict(
+                            {k: v.clone() for k, v in fwd["state"].items()}))
+                    if oc3 == "ok":
+                        oc3, val3, leaves3 = ref_apply(L, fwd, mod3)
+                    if oc3 == "ok":
+                        sel3 = select_backward(torch, val3, leaves3, rec["op"])
+                        if sel3 is not None:
+                            o3, c3, i3 = sel3
+                            oc3, g3 = _run(lambda: torch.autograd.grad(
+                                o3, i3, c3, retain_graph=cg, create_graph=cg, allow_unused=True))
+                            if oc3 == "ok":
+                                st["compared_same_filters"] = st.get("compared_same_filters", 0) + 1
+                                m = compare(rec["out_snap"], snap(list(g3)), "bitwise")
+                                if m:
+                                    m = "(module constructed in %s holding the same filter values) %s" % (cur, m)
             else:
                 st["compared_bitwise"] += 1
                 m = compare(rec["out_snap"], ref_snap, "bitwise")
